@@ -277,13 +277,23 @@ func (w *World) errPropagated(fn *ssa.Function, call ssa.CallInstruction) (bool,
 		_ = ifi
 	}
 	if !used {
-		// the error may be returned unconditionally (return f())
+		// the error may be returned unconditionally (return f()): then no return behind the call may claim success
+		// (a nil constant in the error position) - the untested error would be dropped on that path
+		carried := false
 		for _, r := range returnsUnder(fn, nil) {
-			for _, v := range valuesUnder(fn, r.Results[ri], nil) {
+			if r.Block() != call.Block() && !canReach(at(call), nil, isInstr(r), nil) {
+				continue
+			}
+			for _, v := range valuesAfter(fn, call, r.Results[ri], nil) {
 				if isResultOf(v, call, ei) {
-					return true, ""
+					carried = true
+				} else if isNilConst(v) {
+					return false, fmt.Sprintf("error result of %s is not tested, and the return at %s reports success behind it", w.calleeName(call), w.ipos(r))
 				}
 			}
+		}
+		if carried {
+			return true, ""
 		}
 		return false, fmt.Sprintf("error result of %s is never tested nor returned", w.calleeName(call))
 	}
@@ -302,7 +312,7 @@ func (w *World) errPropagated(fn *ssa.Function, call ssa.CallInstruction) (bool,
 			continue
 		}
 		n++
-		for _, v := range valuesUnder(fn, r.Results[ri], keep) {
+		for _, v := range valuesAfter(fn, call, r.Results[ri], keep) {
 			if isResultOf(v, call, ei) || w.isFreshError(v) {
 				continue
 			}
@@ -531,5 +541,45 @@ func ssautilAll(w *World) map[*ssa.Function]bool {
 	if init := w.Main.Func("init"); init != nil {
 		out[init] = true
 	}
+	return out
+}
+
+
+// valuesAfter: the values v can stand for on the paths that run through call (following kept edges): like valuesUnder,
+// but an edge of a join whose source block cannot be reached from the call is left out - it belongs to a path on which
+// the call was never made (an earlier failure that shares the return statement).
+func valuesAfter(fn *ssa.Function, call ssa.CallInstruction, v ssa.Value, keep edgeKeep) []ssa.Value {
+	var out []ssa.Value
+	seen := map[ssa.Value]bool{}
+	var walk func(x ssa.Value)
+	walk = func(x ssa.Value) {
+		if seen[x] {
+			return
+		}
+		seen[x] = true
+		ph, ok := x.(*ssa.Phi)
+		if !ok {
+			out = append(out, valuesUnder(fn, x, keep)...)
+			return
+		}
+		for i, e := range ph.Edges {
+			p := ph.Block().Preds[i]
+			if p != call.Block() && !canReach(at(call), keep, isInstr(lastInstr(p)), nil) {
+				continue
+			}
+			// the edge itself must be kept
+			kept := false
+			for si, s := range p.Succs {
+				if s == ph.Block() && (keep == nil || keep(p, si)) {
+					kept = true
+				}
+			}
+			if !kept {
+				continue
+			}
+			walk(e)
+		}
+	}
+	walk(v)
 	return out
 }
